@@ -179,6 +179,27 @@ def post_model(ctx, T, run_model):
                 extra_f.append("box.open %s %s %s %s %s" % (v, hexs(c[:cut]), hexs(n), pka, skb))
             nx = bytearray(n); nx[rng.randrange(24)] ^= 1
             extra_f.append("box.open %s %s %s %s %s" % (v, hexs(c), hexs(bytes(nx)), pka, skb))
+    # sealed boxes (crypto_box_seal_open): every bit of the ephemeral-key header, the authenticator and the body; truncations, extension, other recipient
+    for mlen in (0, 1, 33, 67):
+        sb2, esk, m = rb(rng, 32), rb(rng, 32), rb(rng, mlen)
+        pkb2, skb = run_model(["box.seed_keypair %s" % hexs(sb2)])[0].split(" ")
+        o = run_model(["rng.gen seal %s %s %s" % (hexs(esk), hexs(m) if m else "-", pkb2)])[0].split(" ")
+        if len(o) != 3 or o[1] != "0":
+            raise vcore.BrokenCheck("model did not produce a sealed box: %s" % o[:2])
+        c = bytes.fromhex(o[2])
+        L.append("seal.open %s %s %s" % (hexs(c), pkb2, skb))
+        for x in flips(rng, c, True):
+            extra_f.append("seal.open %s %s %s" % (hexs(x), pkb2, skb))
+        for cut in range(len(c)):
+            extra_f.append("seal.open %s %s %s" % (hexs(c[:cut]) if cut else "-", pkb2, skb))
+        extra_f.append("seal.open %s %s %s" % (hexs(c + b"\x00"), pkb2, skb))
+        for x in vcore.tag_mutations(rng, c[32:48], all_pairs=False):
+            extra_f.append("seal.open %s %s %s" % (hexs(c[:32] + x + c[48:]), pkb2, skb))
+        pko, sko = run_model(["box.seed_keypair %s" % hexs(rb(rng, 32))])[0].split(" ")
+        extra_f.append("seal.open %s %s %s" % (hexs(c), pko, sko))
+        extra_f.append("seal.open %s %s %s" % (hexs(c), pkb2, sko))
+        pkx = bytearray(bytes.fromhex(pkb2)); pkx[rng.randrange(32)] ^= 1 << rng.randrange(7)
+        extra_f.append("seal.open %s %s %s" % (hexs(c), hexs(bytes(pkx)), skb))
     # secretstream: one pushed chunk, then every single-bit change of it (tag byte, body, authenticator), truncations and extension pulled
     # against the SAME puller state (a failed pull leaves the state unchanged, C09), then the genuine chunk, which must still be accepted
     for (mlen, adl) in ((0, 0), (1, 0), (33, 5), (100, 16)):
@@ -202,6 +223,24 @@ def post_model(ctx, T, run_model):
     ctx.stats["forged_inputs"] = nforged
     ctx.stats["valid_tuples"] = len(T)
     return L
+
+
+def MODEL_RUN(ctx, lines):
+    """the driver is stateless except for the secretstream slots: the ss.* lines keep their order in one process, everything else is spread over processes"""
+    ss = [i for i, l in enumerate(lines) if l.startswith("ss.")]
+    rest = [i for i, l in enumerate(lines) if not l.startswith("ss.")]
+    from concurrent.futures import ThreadPoolExecutor
+    with ThreadPoolExecutor(max_workers=2) as ex:
+        f1 = ex.submit(vcore.run_model, ctx, [lines[i] for i in ss]) if ss else None
+        f2 = ex.submit(vcore.run_model_parallel, ctx, [lines[i] for i in rest])
+        o1 = f1.result() if f1 else []
+        o2 = f2.result()
+    out = [None] * len(lines)
+    for i, v in zip(ss, o1):
+        out[i] = v
+    for i, v in zip(rest, o2):
+        out[i] = v
+    return out
 
 
 def predicate(ctx, line, impl, model):
